@@ -123,7 +123,7 @@ func (c *checkCtx) writeEvidence(bt *batch, xp *xprocResult, reports []report, v
 		"coverage":    cov,
 		"assumptions": append([]string{
 			"sampled schedules, map orders and histories: a clean batch is evidence, not proof",
-			"programs are the repository's own example packages (checkers/testdata/*, linttest sanity) - program generation belongs to properties this technique does not address",
+			"programs are the repository's own example packages (checkers/testdata/*, linttest sanity) plus the hand-written packages under /verif/sim/corpus and /verif/sim/oldmod - program generation belongs to properties this technique does not address",
 			"nondeterminism inside std/x-tools/ruleguard is not owned by the simulator; only its effect on diagnostics is observed across processes",
 		}, c.Plan.Assume...),
 		"wall_s":     wall,
@@ -150,6 +150,9 @@ func componentsFor(id string) map[string]any {
 		stub = append(stub, "go/analysis driver: stub that starts one goroutine per package pass (what x/tools' checker does), Pass.Report collects per pass")
 		if id == "C02" {
 			real = append(real, "the shipped go-critic binary as real processes with the real package loader (cross-process leg)")
+		}
+		if id == "C03" {
+			real = append(real, "the shipped go-critic and gocritic binaries as real processes with the real package loader (command-line order/grouping leg)")
 		}
 	case "C05":
 		real = append([]string{"cmd/go-critic program under seeded schedules (switch-point fingerprints)", "linter.NewChecker / Checker.Check for every registered checker (frame sweeps)"}, real...)
